@@ -313,12 +313,14 @@ theorem insertPlan_sat {lvl : Nat} (E : Env) (t : PTree) (fuel key val : Nat) :
     Sat t.id lvl (fun s => Vis s.heap t.id t.root) (insertPlan E t fuel key val)
       (fun p s' => InsPlanOK s'.heap t.id p) := by
   unfold insertPlan
+  apply Sat.bind (layerM_sat E key)
+  intro lay
   dsimp only
   apply Sat.bind (Q1 := fun a0 s' => Vis s'.heap t.id (.ptr a0))
   · split
     · exact (alloc_sat (m := t.id) (emptyNode t.id) rfl rfl (fun s _ _ => emptyNode_links_vis s.heap t.id)).conseq
         (Nat.le_refl _) (fun _ _ h => h) (fun _ _ _ h => own_vis h.1)
-    · exact load_sat E t.root
+    · exact (load_sat E t.root).conseq (Nat.le_refl _) (fun _ _ h => h.2.vis) (fun _ _ _ h => h)
   · intro a0
     apply Sat.bind ((findNode_sat E key _ true fuel a0 t.height []).conseq (Nat.le_refl _)
       (fun s _ h => ⟨h.1, fun p hp => by simp at hp⟩) (fun fd s _ (h : FoundOK s.heap t.id fd) => h))
